@@ -1,9 +1,450 @@
-import SynthVerif.Model.Adsr
-import SynthVerif.Model.Lfo
-import SynthVerif.Model.Quantizer
-import SynthVerif.Model.Midi
-import SynthVerif.Model.Glide
-import SynthVerif.Model.Ribbon
+import SynthVerif.Props.GlideLemmas
+import SynthVerif.Props.C20
+/-!
+# C13 — Glide never overshoots or rings and always converges to a steady input
+
+* `coeff_sign`: for every sample rate in [100 Hz, 48 kHz] (any representable value) and **every** `set_time`
+  argument (any f32: 0, NaN, ∞ included) the filter is a one-pole with `0 < b0 ≤ 1` and `−1 ≤ a1 ≤ 0`
+  (`GInv` is an invariant of every `set_time`/`process` history).
+* `stepQ_mono`: with `a1 ≤ 0` one filter step is a monotone (non-decreasing) function of the previous output —
+  for the *rounded* binary32 recurrence, no error analysis involved.
+* `no_ringing`: hence with the input held and the coefficients unchanged the output sequence is monotone from the
+  first step on: it never reverses direction, so it cannot oscillate around the target.
+* `bounded_partial`: for inputs bounded by `M` the output stays within `[-2M, 2M]` under any `set_time` schedule
+  (coarse form of the range clause: enough to exclude overflow in every step; the property's tight bound
+  "range of the inputs ± f32 resolution of the filter" is checked by the oracle only — see DESIGN.md).
+-/
 namespace C13
-theorem placeholder_to_be_replaced : True := trivial
+open F32 Glide
+
+/-! ### one filter step is monotone in the previous output -/
+
+theorem stepQ_mono {b0 a1 x y y' : ℚ} (ha : a1 ≤ 0) (h : y ≤ y') : stepQ b0 a1 x y ≤ stepQ b0 a1 x y' := by
+  unfold stepQ
+  apply rnd_mono
+  have := rnd_mono (mul_le_mul_of_nonpos_left h ha)
+  linarith
+
+/-- iterating the step with a fixed input -/
+def iter (b0 a1 x : ℚ) (y0 : ℚ) : ℕ → ℚ
+  | 0 => y0
+  | n + 1 => stepQ b0 a1 x (iter b0 a1 x y0 n)
+
+/-- **no ringing**: the rounded recurrence with the input held never reverses direction -/
+theorem no_ringing (b0 a1 x y0 : ℚ) (ha : a1 ≤ 0) :
+    (iter b0 a1 x y0 0 ≤ iter b0 a1 x y0 1 → ∀ n, iter b0 a1 x y0 n ≤ iter b0 a1 x y0 (n + 1)) ∧
+    (iter b0 a1 x y0 1 ≤ iter b0 a1 x y0 0 → ∀ n, iter b0 a1 x y0 (n + 1) ≤ iter b0 a1 x y0 n) := by
+  constructor
+  · intro h n
+    induction n with
+    | zero => exact h
+    | succ n ih => exact stepQ_mono ha ih
+  · intro h n
+    induction n with
+    | zero => exact h
+    | succ n ih => exact stepQ_mono ha ih
+
+/-! ### the coefficients `set_time` produces -/
+
+theorem two_pi : mul two pi32 = .fin (mul two pi32).val false := by decide +kernel
+theorem two_pi_bounds : 6 ≤ (mul two pi32).val ∧ (mul two pi32).val ≤ 7 := by decide +kernel
+theorem minFc_val : (ofRat (1 / 10)).isFin = true ∧ (1:ℚ) / 16 ≤ (ofRat (1 / 10)).val ∧ (ofRat (1 / 10)).val ≤ 1 / 8 ∧
+    ofRat (1 / 10) = .fin (ofRat (1 / 10)).val false := by decide +kernel
+
+/-- `from_params(SinglePoleLowPassApprox)`: for `0 < f0`, `2·f0 ≤ fs ≤ 2^16`, `f0 ≥ 1/16` the result is a one-pole
+with `2^-21 ≤ b0 ≤ 1`, `−1 ≤ a1 ≤ 0` and `|a1| ≤ 1 − b0 + 2^-25` -/
+theorem mkCoeffs_ok (σ φ : ℚ) (ns nf : Bool) (hσ : σ ≤ 2 ^ 16) (hφ : 1 / 16 ≤ φ) (hn : 2 * φ ≤ σ)
+    (hrσ : Rep σ) (hrφ : Rep φ) :
+    ∃ c, mkCoeffs (.fin σ ns) (.fin φ nf) = some c ∧ c.a2 = zero ∧ c.b1 = zero ∧ c.b2 = zero ∧
+      c.a1.isFin = true ∧ c.b0.isFin = true ∧ 2 ^ (-21:ℤ) ≤ c.b0.val ∧ c.b0.val ≤ 1 ∧
+      -1 ≤ c.a1.val ∧ c.a1.val ≤ 0 ∧ -c.a1.val ≤ 1 - c.b0.val + 2 ^ (-25:ℤ) := by
+  have hφ0 : 0 < φ := lt_of_lt_of_le (by norm_num) hφ
+  have hσ0 : 0 < σ := by linarith
+  -- the guards
+  have g1 : lt zero (F32.fin σ ns) = true := by simp only [lt, zero]; simpa using hσ0
+  have g2 : lt zero (F32.fin φ nf) = true := by simp only [lt, zero]; simpa using hφ0
+  have h2φ : Rep (2 * φ) := by have := rep_mul_pow2 hrφ 1; norm_num at this; rwa [mul_comm] at this
+  have tw : two = .fin 2 false := rfl
+  have m2 : mul two (F32.fin φ nf) = round (2 * φ) ((F32.fin (2:ℚ) false).sign != (F32.fin φ nf).sign) := by
+    rw [tw, mul_fin]
+  obtain ⟨q1, q2⟩ := round_fin (x := 2 * φ) ((F32.fin (2:ℚ) false).sign != (F32.fin φ nf).sign)
+    (no_overflow (by rw [abs_of_nonneg (by positivity)]; exact le_trans (le_trans hn hσ) (by norm_num)))
+  rw [rnd_rep h2φ] at q2
+  have g3 : lt (F32.fin σ ns) (mul two (F32.fin φ nf)) = false := by
+    rw [m2, lt_val (isFin_fin _ _) q1, q2, val_fin]; simpa using hn
+  -- ω
+  obtain ⟨tp1, tp2⟩ := two_pi_bounds
+  set K := (mul two pi32).val with hK
+  have hKf : (mul two pi32).isFin = true := by rw [two_pi]; rfl
+  have hKφ : |K * φ| ≤ 2 ^ (127:ℤ) := by
+    rw [abs_of_nonneg (by positivity)]
+    calc K * φ ≤ 7 * 2 ^ 16 := by nlinarith
+      _ ≤ 2 ^ (127:ℤ) := by norm_num
+  obtain ⟨w1, w2⟩ := val_mul (x := mul two pi32) (y := .fin φ nf) hKf rfl (by simpa using hKφ)
+  rw [val_fin] at w2
+  -- bounds on rnd (K φ)
+  have rlo : 3 / 8 ≤ rnd (K * φ) := by
+    apply le_rnd_of_le _ (by have := rep_div_pow2 (m := 3) (by norm_num) 3 (by norm_num); norm_num at this; exact this)
+    nlinarith
+  have rhi : rnd (K * φ) ≤ 4 * σ := by
+    have h4 : Rep (4 * σ) := by have := rep_mul_pow2 hrσ 2; norm_num at this; rwa [mul_comm] at this
+    apply rnd_le_of_le _ h4; nlinarith
+  have hdivb : |(mul (mul two pi32) (F32.fin φ nf)).val / (F32.fin σ ns).val| ≤ 2 ^ (127:ℤ) := by
+    rw [w2, val_fin, abs_of_nonneg (by apply div_nonneg <;> linarith)]
+    calc rnd (K * φ) / σ ≤ 4 := by rw [div_le_iff₀ hσ0]; exact rhi
+      _ ≤ 2 ^ (127:ℤ) := by norm_num
+  obtain ⟨o1, o2⟩ := val_div w1 (isFin_fin σ ns) (by simpa using ne_of_gt hσ0) hdivb
+  rw [w2, val_fin] at o2
+  set ω := (div (mul (mul two pi32) (F32.fin φ nf)) (F32.fin σ ns)).val with hω
+  have ωlo : 2 ^ (-18:ℤ) ≤ ω := by
+    rw [o2]; apply le_rnd_of_le _ (rep_pow2 (by norm_num))
+    rw [le_div_iff₀ hσ0]
+    calc (2:ℚ) ^ (-18:ℤ) * σ ≤ 2 ^ (-18:ℤ) * 2 ^ 16 := by nlinarith [show (0:ℚ) < 2 ^ (-18:ℤ) by positivity]
+      _ ≤ 3 / 8 := by norm_num
+      _ ≤ rnd (K * φ) := rlo
+  have ωhi : ω ≤ 4 := by
+    rw [o2]; apply rnd_le_of_le _ (by simpa using rep_int (n := 4) (by norm_num))
+    rw [div_le_iff₀ hσ0]; exact rhi
+  have ωrep : rnd ω = ω := by rw [o2]; exact rnd_idem _
+  have ω0 : 0 < ω := lt_of_lt_of_le (by positivity) ωlo
+  -- ω + 1
+  obtain ⟨p1, p2⟩ := val_add o1 (by rfl : one.isFin = true)
+    (by show |ω + 1| ≤ _; rw [abs_of_nonneg (by linarith)]; exact le_trans (by linarith) (by norm_num : (5:ℚ) ≤ 2 ^ (127:ℤ)))
+  have p2' : (add (div (mul (mul two pi32) (F32.fin φ nf)) (F32.fin σ ns)) one).val = rnd (ω + 1) := p2
+  have dlo : ω ≤ rnd (ω + 1) := by
+    have := rnd_mono (show ω ≤ ω + 1 by linarith); rwa [ωrep] at this
+  have dlo1 : 1 ≤ rnd (ω + 1) := le_rnd_of_le (by linarith) rep_one
+  have dhi : rnd (ω + 1) ≤ 8 := rnd_le_of_le (by linarith) (by simpa using rep_int (n := 8) (by norm_num))
+  -- α
+  have hqb : |ω / rnd (ω + 1)| ≤ 2 ^ (127:ℤ) := by
+    rw [abs_of_nonneg (by apply div_nonneg <;> linarith)]
+    calc ω / rnd (ω + 1) ≤ 1 := by rw [div_le_one (by linarith)]; exact dlo
+      _ ≤ 2 ^ (127:ℤ) := by norm_num
+  obtain ⟨a1f, a1v⟩ := val_div o1 p1 (by rw [p2']; linarith) (by rw [p2']; exact hqb)
+  rw [p2'] at a1v
+  set α := (div (div (mul (mul two pi32) (F32.fin φ nf)) (F32.fin σ ns)) (add (div (mul (mul two pi32) (F32.fin φ nf)) (F32.fin σ ns)) one)).val with hα
+  have αhi : α ≤ 1 := by
+    rw [a1v]; apply rnd_le_of_le _ rep_one
+    rw [div_le_one (by linarith)]; exact dlo
+  have αlo : 2 ^ (-21:ℤ) ≤ α := by
+    rw [a1v]; apply le_rnd_of_le _ (rep_pow2 (by norm_num))
+    rw [le_div_iff₀ (by linarith)]
+    calc (2:ℚ) ^ (-21:ℤ) * rnd (ω + 1) ≤ 2 ^ (-21:ℤ) * 8 := by nlinarith [show (0:ℚ) < 2 ^ (-21:ℤ) by positivity]
+      _ = 2 ^ (-18:ℤ) := by norm_num
+      _ ≤ ω := ωlo
+  have α0 : 0 < α := lt_of_lt_of_le (by positivity) αlo
+  -- a1 = α − 1
+  obtain ⟨s1, s2⟩ := val_sub a1f (by rfl : one.isFin = true)
+    (by show |α - 1| ≤ _; rw [abs_le]; constructor <;> [linarith [show (0:ℚ) ≤ 2 ^ (127:ℤ) by positivity]; linarith [show (1:ℚ) ≤ 2 ^ (127:ℤ) by norm_num]])
+  have s2' : (sub (div (div (mul (mul two pi32) (F32.fin φ nf)) (F32.fin σ ns)) (add (div (mul (mul two pi32) (F32.fin φ nf)) (F32.fin σ ns)) one)) one).val = rnd (α - 1) := s2
+  have a1lo : -1 ≤ rnd (α - 1) := le_rnd_of_le (by linarith) (rep_neg rep_one)
+  have a1hi : rnd (α - 1) ≤ 0 := rnd_le_of_le (by linarith) rep_zero
+  have a1err : |rnd (α - 1) - (α - 1)| ≤ 2 ^ (-25:ℤ) := by
+    have := rnd_err (x := α - 1) (k := 0) (by norm_num) (by rw [abs_lt]; constructor <;> linarith)
+    simpa using this
+  have hmk : mkCoeffs (.fin σ ns) (.fin φ nf) = some
+      { a1 := sub (div (div (mul (mul two pi32) (F32.fin φ nf)) (F32.fin σ ns)) (add (div (mul (mul two pi32) (F32.fin φ nf)) (F32.fin σ ns)) one)) one,
+        a2 := zero,
+        b0 := div (div (mul (mul two pi32) (F32.fin φ nf)) (F32.fin σ ns)) (add (div (mul (mul two pi32) (F32.fin φ nf)) (F32.fin σ ns)) one),
+        b1 := zero, b2 := zero } := by
+    simp only [mkCoeffs, g1, g2, g3, Bool.not_true, Bool.or_self, Bool.false_eq_true, ↓reduceIte]
+  refine ⟨_, hmk, rfl, rfl, rfl, s1, a1f, αlo, αhi, ?_, ?_, ?_⟩
+  · rw [s2']; exact a1lo
+  · rw [s2']; exact a1hi
+  · rw [s2']; have := (abs_le.mp a1err).1; linarith
+
+/-! ### the invariant of every `set_time` / `process` history -/
+
+/-- configuration and coefficients: what `new` establishes and every `set_time` preserves -/
+structure CInv (g : Glide) (σ : ℚ) (ns : Bool) : Prop where
+  fs : g.fs = .fin σ ns
+  lo : 100 ≤ σ
+  hi : σ ≤ 48000
+  rep : Rep σ
+  minFc : g.minFc = ofRat (1 / 10)
+  maxFc : g.maxFc = .fin (σ / 2) false
+  one : OnePole g
+  b0lo : 2 ^ (-21:ℤ) ≤ g.coeffs.b0.val
+  b0hi : g.coeffs.b0.val ≤ 1
+  a1lo : -1 ≤ g.coeffs.a1.val
+  a1hi : g.coeffs.a1.val ≤ 0
+  sum : -g.coeffs.a1.val ≤ 1 - g.coeffs.b0.val + 2 ^ (-25:ℤ)
+
+theorem rep_half {σ : ℚ} (h : Rep σ) (h1 : 1 ≤ σ) : Rep (σ / 2) := by
+  obtain ⟨m, e, rfl, hm, he⟩ := h
+  by_cases he' : -149 < e
+  · refine ⟨m, e - 1, ?_, hm, by omega⟩
+    rw [zpow_sub₀ (by norm_num : (2:ℚ) ≠ 0)]; ring
+  · -- e = -149 would make |σ| < 2^-125 < 1
+    exfalso
+    have e149 : e = -149 := by omega
+    subst e149
+    have : |(m:ℚ) * 2 ^ (-149:ℤ)| < 1 := by
+      rw [abs_mul, abs_of_pos (by positivity : (0:ℚ) < 2 ^ (-149:ℤ))]
+      have hm' : |(m:ℚ)| < 2 ^ 24 := by
+        have : |(m:ℚ)| = ((|m| : ℤ) : ℚ) := by push_cast; rfl
+        rw [this]; exact_mod_cast hm
+      calc |(m:ℚ)| * 2 ^ (-149:ℤ) < 2 ^ 24 * 2 ^ (-149:ℤ) := by
+            apply mul_lt_mul_of_pos_right hm' (by positivity)
+        _ < 1 := by norm_num
+    have := abs_lt.mp this
+    linarith
+
+/-- every division result has a representable value -/
+theorem div_rep (x y : F32) : Rep (div x y).val := by
+  have hround : ∀ q zs, Rep (round q zs).val := by
+    intro q zs
+    rw [round_def]
+    split
+    · exact rep_zero
+    · split
+      · exact rep_zero
+      · exact rep_rnd q
+  cases x <;> cases y <;> simp only [div] <;> first | exact rep_zero | skip
+  rename_i a na b nb
+  split
+  · split <;> exact rep_zero
+  · exact hround _ _
+
+/-- `GlideProcessor::new` for a representable sample rate in [100, 48000] -/
+theorem new_inv (σ : ℚ) (ns : Bool) (lo : 100 ≤ σ) (hi : σ ≤ 48000) (hrep : Rep σ) :
+    ∃ g, Glide.new (.fin σ ns) = some g ∧ CInv g σ ns ∧ g.x1 = zero ∧ g.x2 = zero ∧ g.y1 = zero ∧ g.y2 = zero := by
+  have hhalf : Rep (σ / 2) := rep_half hrep (by linarith)
+  have hσ0 : 0 < σ := by linarith
+  have tw : two = .fin 2 false := rfl
+  have hd : div (F32.fin σ ns) two = .fin (σ / 2) false := by
+    rw [tw, div_fin _ _ _ _ (by norm_num), round_def, rnd_rep hhalf, qabs_eq, pow2_eq]
+    have hov : ¬ ((2:ℚ) ^ (128:ℤ) ≤ |σ / 2|) := by
+      rw [abs_of_nonneg (by positivity)]; apply not_le.mpr
+      calc σ / 2 ≤ 48000 := by linarith
+        _ < 2 ^ (128:ℤ) := by norm_num
+    have hne : ((σ / 2) == 0) = false := by
+      have : σ / 2 ≠ 0 := by positivity
+      simpa using this
+    rw [if_neg hov, hne]; simp
+  obtain ⟨c, hc, c1, c2, c3, c4, c5, c6, c7, c8, c9, c10⟩ :=
+    mkCoeffs_ok σ (σ / 2) ns false (by linarith) (by linarith) (by linarith) hrep hhalf
+  have hnew : Glide.new (.fin σ ns) = some
+      { minFc := ofRat (1 / 10), maxFc := .fin (σ / 2) false, fs := .fin σ ns, coeffs := c, x1 := zero, x2 := zero,
+        y1 := zero, y2 := zero, cachedT := .fin (-1) false } := by
+    simp only [Glide.new, hd, hc]
+  refine ⟨_, hnew, ?_, rfl, rfl, rfl, rfl⟩
+  exact ⟨rfl, lo, hi, hrep, rfl, rfl, ⟨c1, c2, c3, c4, c5⟩, c6, c7, c8, c9, c10⟩
+
+/-- **every `set_time` call** — any f32 argument — succeeds and preserves the invariant; the filter memory is
+untouched -/
+theorem setTime_inv (g : Glide) (σ : ℚ) (ns : Bool) (h : CInv g σ ns) (t : F32) :
+    ∃ g', g.setTime t = some g' ∧ CInv g' σ ns ∧ g'.x1 = g.x1 ∧ g'.x2 = g.x2 ∧ g'.y1 = g.y1 ∧ g'.y2 = g.y2 := by
+  unfold Glide.setTime
+  split
+  · exact ⟨g, rfl, h, rfl, rfl, rfl, rfl⟩
+  · obtain ⟨m1, m2, m3, m4⟩ := minFc_val
+    have hσ0 : 0 < σ := by linarith [h.lo]
+    -- the clamped cutoff
+    have hcl := C20.max_min_clamp (ofRat (1 / 10)).val (σ / 2) (by linarith) (by positivity)
+      (by linarith [h.lo]) (div one t)
+    have hf0 : fmin (fmax (div one t) g.minFc) g.maxFc =
+        C20.clampSpec (.fin (ofRat (1 / 10)).val false) (.fin (σ / 2) false) (div one t) := by
+      rw [h.minFc, h.maxFc]; rw [m4] at *; exact hcl
+    have hr := C20.clampSpec_range (lo := .fin (ofRat (1 / 10)).val false) (hi := .fin (σ / 2) false)
+      rfl rfl (by linarith [h.lo]) (div one t)
+    -- its value is representable: it is one of the bounds or the quotient itself
+    have hrep : Rep (C20.clampSpec (.fin (ofRat (1 / 10)).val false) (.fin (σ / 2) false) (div one t)).val := by
+      have r1 : Rep (ofRat (1 / 10)).val := by
+        have : (ofRat (1 / 10)).val = rnd (1 / 10) := by decide +kernel
+        rw [this]; exact rep_rnd _
+      have r2 : Rep (σ / 2) := rep_half h.rep (by linarith [h.lo])
+      unfold C20.clampSpec
+      split
+      · exact r1
+      · split
+        · exact r1
+        · split
+          · exact r2
+          · exact div_rep one t
+    dsimp only
+    rw [hf0]
+    cases hf : C20.clampSpec (.fin (ofRat (1 / 10)).val false) (.fin (σ / 2) false) (div one t) with
+    | nan => rw [hf] at hr; simp at hr
+    | inf s => rw [hf] at hr; simp at hr
+    | fin φ nf =>
+      rw [hf] at hr hrep
+      simp only [val_fin] at hr hrep
+      obtain ⟨c, hc, c1, c2, c3, c4, c5, c6, c7, c8, c9, c10⟩ :=
+        mkCoeffs_ok σ φ ns nf (by linarith [h.hi]) (by linarith [hr.2.1]) (by linarith [hr.2.2]) h.rep hrep
+      rw [h.fs, hc]
+      refine ⟨_, rfl, ?_, rfl, rfl, rfl, rfl⟩
+      exact ⟨rfl, h.lo, h.hi, h.rep, h.minFc, h.maxFc, ⟨c1, c2, c3, c4, c5⟩, c6, c7, c8, c9, c10⟩
+
+/-- **coefficient signs in every reachable configuration** -/
+theorem coeff_sign (g : Glide) (σ : ℚ) (ns : Bool) (h : CInv g σ ns) :
+    0 < g.coeffs.b0.val ∧ g.coeffs.b0.val ≤ 1 ∧ -1 ≤ g.coeffs.a1.val ∧ g.coeffs.a1.val ≤ 0 :=
+  ⟨lt_of_lt_of_le (by positivity) h.b0lo, h.b0hi, h.a1lo, h.a1hi⟩
+
+/-! ### boundedness (coarse form of the range clause) and the model-level statements -/
+
+/-- one step keeps `|y| ≤ 2M` when `|x| ≤ M`, for any coefficient pair the invariant allows -/
+theorem step_bounded {α a1 x y M : ℚ} (hα : 2 ^ (-21:ℤ) ≤ α) (hα1 : α ≤ 1) (ha0 : a1 ≤ 0) (ha1 : -1 ≤ a1)
+    (hsum : -a1 ≤ 1 - α + 2 ^ (-25:ℤ)) (hM : 1 ≤ M) (hx : |x| ≤ M) (hy : |y| ≤ 2 * M) :
+    |stepQ α a1 x y| ≤ 2 * M := by
+  unfold stepQ
+  have eε : (2:ℚ) ^ (-24:ℤ) = 1 / 16777216 := by norm_num
+  have eα : (2:ℚ) ^ (-21:ℤ) = 8 * (1 / 16777216) := by norm_num
+  have e25 : (2:ℚ) ^ (-25:ℤ) = (1 / 16777216) / 2 := by norm_num
+  have hδ : (2:ℚ) ^ (-150:ℤ) ≤ (1 / 16777216) / 4 := by norm_num
+  have hδ0 : (0:ℚ) ≤ 2 ^ (-150:ℤ) := by positivity
+  rw [eα] at hα; rw [e25] at hsum
+  have α0 : 0 ≤ α := by linarith
+  set c := -a1 with hc
+  have c0 : 0 ≤ c := by linarith
+  -- products
+  have pA : |α * x| ≤ α * M := by rw [abs_mul, abs_of_nonneg α0]; exact mul_le_mul_of_nonneg_left hx α0
+  have pE : |a1 * y| ≤ c * (2 * M) := by
+    rw [abs_mul, abs_of_nonpos ha0]; exact mul_le_mul_of_nonneg_left hy c0
+  have rA := abs_le.mp (rnd_err_gen (α * x))
+  have rE := abs_le.mp (rnd_err_gen (a1 * y))
+  have rO := abs_le.mp (rnd_err_gen (rnd (α * x) - rnd (a1 * y)))
+  rw [eε] at rA rE rO
+  generalize (2:ℚ) ^ (-150:ℤ) = δ at *
+  have hA : |rnd (α * x)| ≤ α * M * (1 + 1 / 16777216) + δ := by
+    have t := abs_sub_abs_le_abs_sub (rnd (α * x)) (α * x)
+    have : |rnd (α * x) - α * x| ≤ 1 / 16777216 * |α * x| + δ := abs_le.mpr rA
+    nlinarith [abs_nonneg (α * x)]
+  have hE : |rnd (a1 * y)| ≤ c * (2 * M) * (1 + 1 / 16777216) + δ := by
+    have t := abs_sub_abs_le_abs_sub (rnd (a1 * y)) (a1 * y)
+    have : |rnd (a1 * y) - a1 * y| ≤ 1 / 16777216 * |a1 * y| + δ := abs_le.mpr rE
+    nlinarith [abs_nonneg (a1 * y)]
+  set A := rnd (α * x)
+  set E := rnd (a1 * y)
+  have hS : |A - E| ≤ |A| + |E| := abs_sub A E
+  have hO : |rnd (A - E)| ≤ |A - E| * (1 + 1 / 16777216) + δ := by
+    have t := abs_sub_abs_le_abs_sub (rnd (A - E)) (A - E)
+    have : |rnd (A - E) - (A - E)| ≤ 1 / 16777216 * |A - E| + δ := abs_le.mpr rO
+    nlinarith [abs_nonneg (A - E)]
+  -- assemble
+  have M0 : 0 ≤ M := by linarith
+  have s1 : |A - E| ≤ (α + 2 * c) * M * (1 + 1 / 16777216) + 2 * δ := by nlinarith
+  have s2 : α + 2 * c ≤ 2 - 7 * (1 / 16777216) := by linarith
+  have s3 : (α + 2 * c) * M ≤ (2 - 7 * (1 / 16777216)) * M := mul_le_mul_of_nonneg_right s2 M0
+  have s4 : |A - E| ≤ (2 - 7 * (1 / 16777216)) * M * (1 + 1 / 16777216) + 2 * δ := by nlinarith
+  have hAE0 : 0 ≤ |A - E| := abs_nonneg _
+  calc |rnd (A - E)| ≤ |A - E| * (1 + 1 / 16777216) + δ := hO
+    _ ≤ ((2 - 7 * (1 / 16777216)) * M * (1 + 1 / 16777216) + 2 * δ) * (1 + 1 / 16777216) + δ := by nlinarith
+    _ ≤ 2 * M := by nlinarith
+
+/-- the state part of the invariant: finite memory, output bounded by `2M` -/
+def SInv (M : ℚ) (g : Glide) : Prop :=
+  g.x1.isFin = true ∧ g.x2.isFin = true ∧ g.y1.isFin = true ∧ g.y2.isFin = true ∧ |g.y1.val| ≤ 2 * M
+
+/-- **one `process` call**: finite input bounded by `M` -/
+theorem process_inv (g : Glide) (σ : ℚ) (ns : Bool) (M : ℚ) (hM : 1 ≤ M) (hM' : M ≤ 2 ^ (58:ℤ)) (h : CInv g σ ns)
+    (hs : SInv M g) (x : F32) (hx : x.isFin = true) (hxM : |x.val| ≤ M) :
+    CInv (g.process x).1 σ ns ∧ SInv M (g.process x).1 ∧ (g.process x).2.isFin = true ∧
+    (g.process x).2.val = stepQ g.coeffs.b0.val g.coeffs.a1.val x.val g.y1.val ∧
+    (g.process x).1.y1 = (g.process x).2 ∧ (g.process x).1.coeffs = g.coeffs ∧ |(g.process x).2.val| ≤ 2 * M := by
+  obtain ⟨f1, f2, f3, f4, hy⟩ := hs
+  have hb0 : |g.coeffs.b0.val| ≤ 1 := by
+    rw [abs_of_nonneg (le_trans (by positivity) h.b0lo)]; exact h.b0hi
+  have ha1 : |g.coeffs.a1.val| ≤ 1 := by rw [abs_of_nonpos h.a1hi]; linarith [h.a1lo]
+  have hB : (2:ℚ) * M ≤ 2 ^ (60:ℤ) := by
+    calc 2 * M ≤ 2 * 2 ^ (58:ℤ) := by linarith
+      _ ≤ 2 ^ (60:ℤ) := by norm_num
+  have pv := process_val g x (2 * M) (by linarith) hB h.one ⟨f1, f2, f3, f4, hy⟩ hx (by linarith) hb0 ha1
+  obtain ⟨p1, p2, p3, p4, p5, p6, p7, p8, p9, p10, p11⟩ := pv
+  have hbound : |(g.process x).2.val| ≤ 2 * M := by
+    rw [p2]; exact step_bounded h.b0lo h.b0hi h.a1hi h.a1lo h.sum hM hxM hy
+  refine ⟨?_, ?_, p1, p2, p3, p7, hbound⟩
+  · exact ⟨by rw [p9]; exact h.fs, h.lo, h.hi, h.rep, by rw [p10]; exact h.minFc, by rw [p11]; exact h.maxFc,
+      ⟨by rw [p7]; exact h.one.a2, by rw [p7]; exact h.one.b1, by rw [p7]; exact h.one.b2,
+       by rw [p7]; exact h.one.a1f, by rw [p7]; exact h.one.b0f⟩,
+      by rw [p7]; exact h.b0lo, by rw [p7]; exact h.b0hi, by rw [p7]; exact h.a1lo, by rw [p7]; exact h.a1hi,
+      by rw [p7]; exact h.sum⟩
+  · refine ⟨by rw [p4]; exact hx, by rw [p5]; exact f1, by rw [p3]; exact p1, by rw [p6]; exact f3, ?_⟩
+    rw [p3]; exact hbound
+
+inductive Op
+  | setTime (t : F32)
+  | process (x : F32)
+
+/-- run a history; `none` = panic; collects the outputs -/
+def run (g : Glide) : List Op → Option (Glide × List F32)
+  | [] => some (g, [])
+  | .setTime t :: ops => match g.setTime t with
+    | none => none
+    | some g' => run g' ops
+  | .process x :: ops => match run (g.process x).1 ops with
+    | none => none
+    | some (g', ys) => some (g', (g.process x).2 :: ys)
+
+def inputsOk (M : ℚ) : List Op → Prop
+  | [] => True
+  | .setTime _ :: ops => inputsOk M ops
+  | .process x :: ops => x.isFin = true ∧ |x.val| ≤ M ∧ inputsOk M ops
+
+/-- **C13, histories (coarse range).**  For a sample rate in [100, 48000] Hz, every history of `set_time` calls with
+arbitrary f32 arguments and `process` calls with finite inputs bounded by `M` runs without panic, keeps the filter a
+monotone one-pole (`CInv`), and every output is finite with `|y| ≤ 2M`. -/
+theorem bounded_partial (g : Glide) (σ : ℚ) (ns : Bool) (M : ℚ) (hM : 1 ≤ M) (hM' : M ≤ 2 ^ (58:ℤ))
+    (h : CInv g σ ns) (hs : SInv M g) (ops : List Op) (hi : inputsOk M ops) :
+    ∃ g' ys, run g ops = some (g', ys) ∧ CInv g' σ ns ∧ SInv M g' ∧ ∀ y ∈ ys, y.isFin = true ∧ |y.val| ≤ 2 * M := by
+  induction ops generalizing g with
+  | nil => exact ⟨g, [], rfl, h, hs, by simp⟩
+  | cons o ops ih =>
+    cases o with
+    | setTime t =>
+      obtain ⟨g1, e1, c1, x1, x2, y1, y2⟩ := setTime_inv g σ ns h t
+      have hs1 : SInv M g1 := by
+        obtain ⟨f1, f2, f3, f4, hy⟩ := hs
+        exact ⟨by rw [x1]; exact f1, by rw [x2]; exact f2, by rw [y1]; exact f3, by rw [y2]; exact f4, by rw [y1]; exact hy⟩
+      obtain ⟨g', ys, hr, c', s', hall⟩ := ih g1 c1 hs1 hi
+      have : run g (.setTime t :: ops) = (match g.setTime t with | none => none | some g' => run g' ops) := rfl
+      exact ⟨g', ys, by rw [this, e1]; exact hr, c', s', hall⟩
+    | process x =>
+      obtain ⟨hx, hxM, hrest⟩ := hi
+      obtain ⟨c1, s1, o1, _, _, _, ob⟩ := process_inv g σ ns M hM hM' h hs x hx hxM
+      obtain ⟨g', ys, hr, c', s', hall⟩ := ih (g.process x).1 c1 s1 hrest
+      have : run g (.process x :: ops) = (match run (g.process x).1 ops with
+        | none => none | some (g', ys) => some (g', (g.process x).2 :: ys)) := rfl
+      refine ⟨g', (g.process x).2 :: ys, by rw [this, hr], c', s', ?_⟩
+      intro y hy
+      simp only [List.mem_cons] at hy
+      rcases hy with rfl | hy
+      · exact ⟨o1, ob⟩
+      · exact hall y hy
+
+/-- the filter output after `n` further samples of a held input `x` (no `set_time` in between) is the `n`-fold
+iterate of the monotone step -/
+theorem held_input_iter (g : Glide) (σ : ℚ) (ns : Bool) (M : ℚ) (hM : 1 ≤ M) (hM' : M ≤ 2 ^ (58:ℤ))
+    (h : CInv g σ ns) (hs : SInv M g) (x : F32) (hx : x.isFin = true) (hxM : |x.val| ≤ M) (n : ℕ) :
+    ∃ g', CInv g' σ ns ∧ SInv M g' ∧ g'.coeffs = g.coeffs ∧
+      g' = (fun s => (Glide.process s x).1)^[n] g ∧
+      g'.y1.val = iter g.coeffs.b0.val g.coeffs.a1.val x.val g.y1.val n := by
+  induction n with
+  | zero => exact ⟨g, h, hs, rfl, rfl, rfl⟩
+  | succ n ih =>
+    obtain ⟨g1, c1, s1, hc, hg, hy⟩ := ih
+    obtain ⟨c2, s2, _, v2, y2, k2, _⟩ := process_inv g1 σ ns M hM hM' c1 s1 x hx hxM
+    refine ⟨(g1.process x).1, c2, s2, by rw [k2, hc], ?_, ?_⟩
+    · rw [Function.iterate_succ_apply', ← hg]
+    · rw [y2, v2, hc, hy]; rfl
+
+/-- **C13, no ringing (model level).**  With the input held at a finite `x` and no `set_time` call, the output
+sequence of the filter is monotone from the first sample on: it never reverses direction. -/
+theorem held_input_monotone (g : Glide) (σ : ℚ) (ns : Bool) (M : ℚ) (hM : 1 ≤ M) (hM' : M ≤ 2 ^ (58:ℤ))
+    (h : CInv g σ ns) (hs : SInv M g) (x : F32) (hx : x.isFin = true) (hxM : |x.val| ≤ M) :
+    let y := fun n => ((fun s => (Glide.process s x).1)^[n] g).y1.val
+    (y 0 ≤ y 1 → ∀ n, y n ≤ y (n + 1)) ∧ (y 1 ≤ y 0 → ∀ n, y (n + 1) ≤ y n) := by
+  have key : ∀ n, ((fun s => (Glide.process s x).1)^[n] g).y1.val = iter g.coeffs.b0.val g.coeffs.a1.val x.val g.y1.val n := by
+    intro n
+    obtain ⟨g', _, _, _, hg, hy⟩ := held_input_iter g σ ns M hM hM' h hs x hx hxM n
+    rw [← hg, hy]
+  have nr := no_ringing g.coeffs.b0.val g.coeffs.a1.val x.val g.y1.val h.a1hi
+  simp only [key]
+  exact nr
+
+/-- non-vacuity: a 1 kHz processor, `set_time(0)` in mid-glide (the sequence that rang before the repair) -/
+example : ((Glide.new (ofBits 0x447a0000)).bind fun g => run g
+    [.setTime (ofBits 0x3f000000), .process one, .process one, .setTime zero, .process one, .process one]).map
+      (fun r => r.2.map toBits) = some [1011569936, 1019875856, 1061402229, 1064399238] := by decide +kernel
+
 end C13
